@@ -78,6 +78,7 @@ static int judge_path(const Qv& A, const Qv& B, const std::vector<Qv>& pts, doub
 // ============================================================================ THDM
 static const int NT = 14;
 static const char* TN[NT] = {"1L", "2LF", "2LF_neutral", "2LF_charged", "2LB", "2LB_EWadd", "2LB_nonYuk", "2LB_Yuk", "2L", "unc0", "unc1", "unc2", "total", "1L_approx"};
+static bool LIT = false;
 static bool eval_thdm(thdm::Mass_basis b, const SM& sm, const thdm::Config& cfg, Qv* q) {
    try {
       if (b.mh > b.mH) return false;
@@ -89,10 +90,10 @@ static bool eval_thdm(thdm::Mass_basis b, const SM& sm, const thdm::Config& cfg,
       const double sF = std::fabs(fn) + std::fabs(fc), sB = std::fabs(be) + std::fabs(bn) + std::fabs(by);
       const double mNP = std::fmin(std::fabs(m.get_Mhh(1)), std::fmin(std::fabs(m.get_MAh(1)), std::fabs(m.get_MHm(1))));
       const double dl = std::fabs(4 * m.get_alpha_em() / M_PI * std::log(mNP / m.get_MFe(1)));
-      q[0] = {a1, s1}; q[1] = {aF, sF}; q[2] = {fn, std::fabs(fn)}; q[3] = {fc, std::fabs(fc)}; q[4] = {aB, sB}; q[5] = {be, std::fabs(be)}; q[6] = {bn, std::fabs(bn)}; q[7] = {by, std::fabs(by)};
-      q[8] = {calculate_amu_2loop(m), sF + sB};
+      q[0] = {a1, LIT ? 0 : s1}; q[1] = {aF, LIT ? 0 : sF}; q[2] = {fn, std::fabs(fn)}; q[3] = {fc, std::fabs(fc)}; q[4] = {aB, LIT ? 0 : sB}; q[5] = {be, std::fabs(be)}; q[6] = {bn, std::fabs(bn)}; q[7] = {by, std::fabs(by)};
+      q[8] = {calculate_amu_2loop(m), LIT ? 0 : sF + sB};
       q[9] = {calculate_uncertainty_amu_0loop(m), s1 + sF + sB}; q[11] = {calculate_uncertainty_amu_2loop(m), 2e-12 + (s1 + sF + sB) * dl}; q[10] = {calculate_uncertainty_amu_1loop(m), sF + sB + q[11].s};
-      q[12] = {a1 + q[8].v, s1 + sF + sB}; q[13] = {thdm::amu1L_approx(p1), s1};
+      q[12] = {a1 + q[8].v, LIT ? 0 : s1 + sF + sB}; q[13] = {thdm::amu1L_approx(p1), s1};
       return true;
    } catch (const Error&) { return false; }
 }
@@ -176,6 +177,14 @@ static void thdm_base(vh::Rng& r, int maxclasses) {
          if ((bosonic_q || sum_q) && !mech.bos.empty()) key = "C11:THDM:2LB:" + mech.bos;
          else if ((ferm_q || sum_q) && !mech.ferm.empty()) key = "C11:THDM:2LF:" + mech.ferm;
          else key = std::string("C11:THDM:") + TN[t] + ":" + p.first + (res == 2 ? ":nonfinite" : "");
+         // numerical noise is not a discontinuity at the special point: the 21 values, ordered by d, go up and down many times (a step reverses at most once,
+         // a spike twice).  It is a finding of its own (cancellation in the Yukawa part of the bosonic two-loop contribution for a heavy H and a light H+).
+         if (res == 1 && mech.bos.empty() && mech.ferm.empty()) {
+            std::vector<std::pair<double, double>> dv; for (int k = 0; k < NDS; ++k) dv.push_back({DS[k], pts[t][k].v}); std::sort(dv.begin(), dv.end());
+            int rev = 0; double last = 0; for (size_t k = 1; k < dv.size(); ++k) { const double df = dv[k].second - dv[k - 1].second; if (df != 0) { if (last != 0 && (df > 0) != (last > 0)) ++rev; last = df; } }
+            w.i("direction_reversals", rev);
+            if (rev >= 6 && (t == 7 || t == 4 || t == 8 || t == 12)) key = std::string("C11:THDM:") + TN[t] + ":numerical-noise";
+         }
          out->fail(key, std::string(TN[t]) + " along " + p.first + (res == 2 ? ": non-finite value " : ": leaves the 1% band by ") + vh::num(res == 2 ? val : dev) + " at d=" + vh::num(dd), w);
       }
    }
@@ -299,6 +308,7 @@ static void mssm_base(vh::Rng& r, int maxpaths) {
 int main(int argc, char** argv) {
    vh::Args a(argc, argv);
    vh::Out o(a); out = &o;
+   LIT = a.getd("literal", 0) != 0;
    const int maxclasses = static_cast<int>(a.getd("maxclasses", 0)), maxpaths = static_cast<int>(a.getd("maxpaths", 0));
    const int only_model = static_cast<int>(a.getd("model", 0));   // 1 THDM, 2 MSSM
    gen::CerrCapture cap;
